@@ -1,7 +1,7 @@
 /-
 Time limits (C11).  (1) A tiny Python-expression language with Python's truthiness for the
 constructor's `self.time_limit = <expr>`, (2) the comparison used in `done`, both recovered from the
-source by `harness/translators.py` (gen_timelimit); (3) the generic counting argument.  Import-free.
+source by `harness/translators.py` (gen_timelimit).  Import-free.
 -/
 namespace TL
 
@@ -51,11 +51,7 @@ structure Entry where
 
 def Entry.ok (e : Entry) : Bool := e.wiring.honours && !e.doneCmp.isEmpty && e.doneCmp.all (· == .ge)
 
-/-! ### the counting argument: LAST at step `t` (1-based) iff another cause holds or `t ≥ T` -/
-
-/-- index (1-based) of the first LAST step, searching steps `t+1, t+2, …` with `fuel` steps left -/
-def firstLast (other : Nat → Bool) (T : Nat) : Nat → Nat → Option Nat
-  | 0, _ => none
-  | fuel+1, t => if other (t+1) || decide (t+1 ≥ T) then some (t+1) else firstLast other T fuel (t+1)
+/-! The counting argument (episodes of a step system that increments a counter and compares it with the limit)
+is in `Core/Episode.lean` / `Core/EpisodeLemmas.lean`; it consumes the `Cmp` recorded here. -/
 
 end TL
